@@ -8,6 +8,11 @@ def R(bin_, variant, part, quick, thorough, **kw):
     return d
 
 
+def MC(bin_, part, thorough):
+    # valgrind memcheck on replayed cases of an existing part (uninstrumented fast build), thorough tier only
+    return {"custom": "memcheck", "bin": bin_, "variant": "fast", "part": "memcheck." + part, "mpart": part, "cases": (0, thorough)}
+
+
 def flow(prefix, profiles, variant, quick, thorough, **kw):
     return [R("h_flow", variant, "%s.%s" % (prefix, p), quick, thorough, **kw) for p in profiles]
 
@@ -77,7 +82,8 @@ PLANS = {
                 "every case is non-trivial; distinct = profile x feature signature x stage mask",
         "assumptions": ["non-termination is decided as bounded progress: 120 s CPU then 1200 s CPU alone"],
         "runs": flow("c07", ["general", "degenerate", "big", "wide", "dense", "multirow", "obstruction", "paramfuzz"], "asan", 200, 3000)
-                + flow("c07", ["general", "degenerate", "big", "wide", "dense", "multirow", "obstruction", "paramfuzz"], "ndebug", 200, 3000),
+                + flow("c07", ["general", "degenerate", "big", "wide", "dense", "multirow", "obstruction", "paramfuzz"], "ndebug", 200, 3000)
+                + [MC("h_flow", "c07.general", 48), MC("h_flow", "c07.degenerate", 48), MC("h_flow", "c07.paramfuzz", 48)],
     },
     "C10": {
         "level": "fault_enumeration",
@@ -147,7 +153,8 @@ PLANS = {
         "assumptions": ["lemon NetworkSimplex is exact"],
         "runs": [R("h_t1d", "asan", "c14.random", 50000, 300000), R("h_t1d", "asan", "c14.zeros", 50000, 300000),
                  R("h_t1d", "asan", "c14.exhaustive", 1521, 1521, exhaustive=True),
-                 R("h_t1d", "fast", "c14.random", 0, 500000), R("h_t1d", "fast", "c14.zeros", 0, 500000)],
+                 R("h_t1d", "fast", "c14.random", 0, 500000), R("h_t1d", "fast", "c14.zeros", 0, 500000),
+                 MC("h_t1d", "c14.zeros", 64)],
     },
     "C15": {
         "level": "exploration",
